@@ -14,7 +14,7 @@ run_demo() {
   return $rc
 }
 run_demo; clean=$?
-if ! git -C "$wt" apply "$dir/patch.diff"; then echo "VERDICT $dir: PATCH DOES NOT APPLY"; git -C /repo worktree remove --force "$wt"; exit 3; fi
+if ! git -C "$wt" apply "$dir/patch.diff" 2>/dev/null && ! git -C "$wt" apply -3 "$dir/patch.diff"; then echo "VERDICT $dir: PATCH DOES NOT APPLY"; git -C /repo worktree remove --force "$wt"; exit 3; fi
 ( cd "$wt" && /venv/bin/python -c "import sys; sys.path.insert(0,'$wt'); import windpyutils, compileall; sys.exit(0 if compileall.compile_dir('$wt/windpyutils', quiet=1) else 1)" ) ; comp=$?
 run_demo; mut=$?
 tests=0
